@@ -222,7 +222,8 @@ func read(r io.Reader) (map[byte][]bucket, error) {
 				if lastItemWasDelimiter {
 					h[tag] = append(l, v)
 				} else {
-					h[tag] = []bucket{append(l[0], v...)}
+					// a further fragment of the last value
+					l[len(l)-1] = append(l[len(l)-1], v...)
 				}
 			} else {
 				h[tag] = []bucket{v}
